@@ -40,9 +40,9 @@ class LayoutError(Exception):
 # primitives
 
 
-def enc_str(width, s):
+def enc_str(width, s, full_ok=False):
     b = s.encode("cp1252")
-    if b"\x00" in b or len(b) >= width:
+    if b"\x00" in b or len(b) > width or (len(b) == width and not full_ok):
         raise LayoutError(f"string does not fit s[{width}]")
     return b + b"\x00" * (width - len(b))
 
@@ -256,8 +256,9 @@ def encode(C, run_order=None):
     elif t == "optical":
         o.append(struct.pack("<ii", len(C["chans"]), 0))
         for c in C["chans"]:
-            o.append(struct.pack("<ii", c["idx"], 0) + enc_str(32, c["lens"])
-                     + enc_str(32, c["type"]) + enc_str(32, c["name"])
+            # (a foreign writer may fill these three fields to the last byte)
+            o.append(struct.pack("<ii", c["idx"], 0) + enc_str(32, c["lens"], True)
+                     + enc_str(32, c["type"], True) + enc_str(32, c["name"], True)
                      + struct.pack("<4i", *c["vp"]))
     elif t == "events":
         o.append(struct.pack("<i", len(C["events"])) + C["start"])
